@@ -1,5 +1,6 @@
 """C14 - selection algos select exactly the documented, tradable set (DESIGN 5/C14)."""
 from .. import sym
+from . import backtest_rules
 from ..evalfn import SELF, property_backing
 from ..sym import canon
 from . import tree_rules
@@ -288,6 +289,7 @@ def run(chk):
                 "are equivalent to reference models (truth table over branch atoms, canonical pandas expressions); SelectMomentum wiring; (R4) sample size.")
     chk.assume("ffn's calc_total_return, pandas sort_values tie-breaking and the random generator are not decided")
     tradability(chk)
+    backtest_rules.additional_data_only_prepended(chk)  # SetStat / SelectWhere rely on "no row at now" of sparse named data
     select_where(chk)
     has_data_window(chk)
     for cls, src in WINDOW_REFS.items():
